@@ -769,8 +769,8 @@ PROPS = {
             "level_text": "All cells discharged; constant streams by induction in the exact-identity domain.", "level_note": TB + "finite inputs (x - x = 0, 0 * x = 0)."},
     "C17": {"run": c17, "level": "other", "design_ref": "DESIGN.md 5 C17",
             "technique": TECH + "sign domain (sound for IEEE), convexity via polynomial positivity, shift degree",
-            "explanation": "Decides: every write to a sum of squares in add and merge adds a provably non-negative term, so all variances are >= 0 and error() is real (sound for floats, no restriction on kappa); mean updates and merges are convex combinations (coefficients are ratios of polynomials with non-negative coefficients, summing to 1); bin variance lies in [0, count]. Not decided: effective_len in [1, len]; total/4; rounding slack.",
-            "level_text": "Sign and convexity clauses decided for all inputs.", "level_note": TB + "weights >= 0."},
+            "explanation": "Decides: every write to a sum of squares in add and merge adds a provably non-negative term, so all variances are >= 0 and error() is real (sound for floats, no restriction on kappa); mean updates and merges are convex combinations (coefficients are ratios of polynomials with non-negative coefficients, summing to 1); bin variance lies in [0, count] and is <= total/4 (total/4 - variance is a square over a positive denominator); 1 <= effective_len <= len from two inductive polynomial invariants, n*sum(w^2) - (sum w)^2 >= 0 and (sum w)^2 - sum(w^2) >= 0, preserved by add (w >= 0) and merge (R-ELEN); R-DIM (scale-free emptiness tests). Not decided: the rounding slack of these bounds.",
+            "level_text": "Sign, convexity and range clauses decided for all inputs over the reals (signs: also in floating point).", "level_note": TB + "weights >= 0."},
     "C18": {"run": c18, "level": "other", "design_ref": "DESIGN.md 5 C18",
             "technique": "static analysis: structural query over the type-checked program and the expanded AST (derives, field attributes, serialize_field calls, field types, statics)",
             "explanation": "Decides under the serde feature for 12 in-crate state structs and 11 harness instantiations: Serialize and Deserialize are derived; every field is written under its own name; no serde attribute other than BigArray on arrays (read from the expanded AST); fields are plain data or other covered state structs; no statics, no interior mutability, no unsafe: the serialised form holds every bit of state the methods read. Not decided: losslessness of the format and of serde_derive/BigArray (assumption of the property).",
